@@ -22,6 +22,7 @@ import z3
 
 from contracts import cp_common as cc
 from hv import core, extract, framevc as fv, pyvc
+from hv import history
 from hv.driver import Bounded, Spec
 from hv.pyvc import to_z3
 
@@ -534,7 +535,7 @@ SPEC = Spec(
     prop=PROP, level="other",
     functions=[(CPA, "CPGraph._add_edge_helper"), (CPA, "CPGraph._create_event_nodes"), (CPA, "CPGraph._construct_graph_from_call_stack"), (CPA, "CPGraph._construct_graph_from_kernels"),
                (CPA, "CPGraph._add_gpu_cpu_sync_edge"), (CPA, "CPGraph._add_kernel_launch_delay_edge"), (CPA, "CPGraph._validate_graph"), (CPA, "CriticalPathAnalysis.critical_path_analysis")],
-    units=units, bounded=[Bounded("graph_vs_trace", bounded)],
+    units=units, bounded=[Bounded("graph_vs_trace", bounded), Bounded("history_independence", history.stage(PROP, "critical_path", "cp"))],
     trusted=["the Euler-tour lemma (DFS visit order of a call stack that satisfies C03 yields non-decreasing endpoint times) links the per-visit edges to 'forward in time'",
              "nx.is_directed_acyclic_graph decides acyclicity; acyclicity among nodes with equal timestamps is bounded only",
              "event-record / stream-wait matching helpers are outside the deductive part (and inert under pandas 3: chained fillna(inplace=True))"],
